@@ -29,7 +29,9 @@ LEVEL_NOTE = ('Trusted: Lean kernel; translator + harness. The text route uses t
               'by the harness (the parser itself is the subject of C17); the SDK route covers rot_X/Y/Z, '
               'measure(basis_rotations / named bases) on vanilla and NV, insert_breakpoint (enum and raw values) '
               'and app ids. The vanilla opcode clash (in-range meas_basis decodes as '
-              'mov) is finding F1 of C01 and involves no out-of-range operand; it is counted, not judged, here.')
+              'mov) is finding F1 of C01 and involves no out-of-range operand; it is counted, not judged, here. '
+              'The model encoder is a pure function; that the real one has no call-order / module-state dependence '
+              'is probed in fresh interpreters after different warm-ups (and under python -O/-OO).')
 TECHNIQUE = ('Lean 4 proof (case analysis over operand kinds, induction over operand and instruction lists) + '
              'kernel-decided generated obligations + differential correspondence over three entry routes')
 TRUSTED = [
@@ -390,4 +392,129 @@ print(json.dumps(out))
                 res.failures.append({"what": "an unrepresentable operand is encoded instead of rejected "
                                              "(interpreter mode %s)" % ("".join(flag) or "default"), "kf": None,
                                      "input": {"python_flags": flag, "text": t, "decodes_as": detail}})
+    # The rejection must not depend on what the process did before (module-level / class-level state
+    # such as memoised field lists): run the same probes in FRESH interpreters after different warm-ups
+    # -- base structs instantiated directly, every struct of the encoding module default-constructed,
+    # an accepted / a rejected encode, a decode, the SDK imported -- and in different probe orders.
+    probes = []  # (flavour, text, expected canonical line or None when it must be rejected)
+    seen_mn = set()
+    for fname in ("vanilla", "nv"):
+        for c in H.flavour_classes(fname):
+            if (c.mnemonic, c.id) in seen_mn:
+                continue
+            seen_mn.add((c.mnemonic, c.id))
+            shape = H.shape_of(c)
+            good = [R.base_operand_json(k, rng) for k in shape]
+            if R.renderable(good) and (fname, H.T.cls_name(c)) not in clash41:
+                line = " ".join([c.mnemonic] + [R.render_operand(o) for o in good])
+                probes.append((fname, R.render_text(c.mnemonic, good), line))
+            for j, kind in enumerate(shape):
+                for path, part in R.parts_of(kind):
+                    if part == "bank":
+                        continue
+                    ops = list(good)
+                    ops[j] = R.set_part(ops[j], path, rng.choice(R.JUST[part] + R.FAR[part][:3]))
+                    probes.append((fname, R.render_text(c.mnemonic, ops), None))
+    warmups = [[], ["Command()"], ["Register()"], ["Address()"], ["Metadata()"],
+               ["Command()", "Register()", "Address()", "Metadata()"], ["all-structs"], ["rejected"],
+               ["accepted", "decode"], ["sdk"], ["NoOperandCommand()", "rejected", "Command()"]]
+    extra = ["Command()", "Register()", "Address()", "Metadata()", "all-structs", "rejected", "accepted",
+             "decode", "sdk", "NoOperandCommand()", "ArrayEntry()", "ArraySlice()", "OptionalInt"]
+    if not thorough:  # keep the quick tier small: the base struct most commands derive from, the
+        # combined and generic warm-ups, and a few random ones
+        warmups = [[], ["Command()"], ["Command()", "Register()", "Address()", "Metadata()"], ["all-structs"],
+                   ["rejected"], ["accepted", "decode"], ["sdk"]]
+    for _ in range(30 if thorough else 2):
+        warmups.append(rng.sample(extra, rng.randrange(1, 5)))
+    order_code = r"""
+import sys, json
+sys.path.insert(0, %r)
+plan = json.loads(sys.stdin.read())
+from netqasm.lang import encoding
+from netqasm.lang.parsing.text import parse_text_subroutine
+from netqasm.lang.parsing.binary import deserialize
+from netqasm.lang.instr import flavour as fl
+import ctypes
+FL = {"vanilla": fl.VanillaFlavour, "nv": fl.NVFlavour}
+PRE = "# NETQASM 1.0\n# APPID 0\n"
+for w in plan["warmup"]:
+    try:
+        if w == "all-structs":
+            for name in dir(encoding):
+                obj = getattr(encoding, name)
+                if isinstance(obj, type) and issubclass(obj, ctypes.Structure) and obj is not ctypes.Structure:
+                    try:
+                        obj()
+                    except Exception:
+                        pass
+        elif w == "rejected":
+            try:
+                bytes(parse_text_subroutine(PRE + "set R1 2147483648"))
+            except Exception:
+                pass
+        elif w == "accepted":
+            bytes(parse_text_subroutine(PRE + "qalloc Q0"))
+        elif w == "decode":
+            deserialize(bytes(parse_text_subroutine(PRE + "x Q1\nret_reg M0")))
+        elif w == "sdk":
+            import netqasm.sdk.connection, netqasm.sdk.qubit, netqasm.backend.messages
+        elif w == "OptionalInt":
+            encoding.OptionalInt(5)
+        else:
+            getattr(encoding, w[:-2])()
+    except Exception as e:
+        print("warmup", w, type(e).__name__, file=sys.stderr)
+out = []
+for k in plan["order"]:
+    f, text = plan["probes"][k]
+    try:
+        s = parse_text_subroutine(text, flavour=FL[f]())
+        back = [str(i) for i in deserialize(bytes(s), flavour=FL[f]()).instructions]
+        out.append([k, "encoded", back])
+    except Exception as e:
+        out.append([k, "raised", type(e).__name__])
+print(json.dumps(out))
+""" % (_common.REPO,)
+    plans = []
+    for wu in warmups:
+        order = list(range(len(probes)))
+        if wu:
+            rng.shuffle(order)
+        plans.append((wu, order, {"warmup": wu, "order": order, "probes": [[f, t] for f, t, _ in probes]}))
+
+    def _run_plan(item):
+        wu, order, plan = item
+        try:
+            p = subprocess.run([_sys.executable, "-c", order_code], input=json.dumps(plan), capture_output=True,
+                               text=True, timeout=300)
+            return json.loads(p.stdout.strip().split("\n")[-1])
+        except Exception as exc:
+            return exc
+
+    from concurrent.futures import ThreadPoolExecutor
+    with ThreadPoolExecutor(max_workers=8) as pool:
+        results = list(pool.map(_run_plan, plans))
+    for (wu, order, plan), rows in zip(plans, results):
+        if isinstance(rows, Exception):
+            res.disagreements.append({"stream": "reject.call-order", "input": {"warmup": wu},
+                                      "model": "runs", "code": f"probe failed: {rows}"})
+            continue
+        res.count("fresh-process-warmup:" + ("+".join(wu) or "none"))
+        for k, what, detail in rows:
+            res.evaluations += 1
+            fname, text, want = probes[k]
+            line = text.strip().split("\n")[-1]
+            if want is None:
+                res.nontrivial.add(("order", "+".join(wu), fname, line))
+                if what != "raised":
+                    res.failures.append({"what": "an unrepresentable operand is encoded instead of rejected, "
+                                                 "depending on what the process did before", "kf": None,
+                                         "input": {"fresh_process_warmup": wu, "flavour": fname, "text": line,
+                                                   "position_in_order": order.index(k),
+                                                   "decodes_as": detail}})
+            elif what != "encoded" or detail != [want]:
+                res.failures.append({"what": "an in-range program is not encoded faithfully (fresh process, "
+                                             "after a warm-up)", "kf": None,
+                                     "input": {"fresh_process_warmup": wu, "flavour": fname, "text": line,
+                                               "result": [what, detail]}})
     return res
